@@ -47,6 +47,15 @@ func HCtx(defaultConfig string, globalArgs, subArgs []string) (*cli.Context, err
 	return cli.NewContext(app, ss, g), nil
 }
 
+// HCtxArgs derives a sub-command context with positional arguments from a context built by HCtx.
+func HCtxArgs(parent *cli.Context, args []string) (*cli.Context, error) {
+	fs := flag.NewFlagSet("sub", flag.ContinueOnError)
+	if err := fs.Parse(args); err != nil {
+		return nil, err
+	}
+	return cli.NewContext(parent.App, fs, parent), nil
+}
+
 // Harness_settings_precedence: flag > configuration file > default for recipe-book path, log
 // path, date format and resolve depth, for every combination of {flag given} x {config entry
 // present / absent / no config file}; an explicitly named configuration file that exists is
